@@ -29,6 +29,7 @@ import (
 	"honnef.co/go/tools/analysis/lint"
 	"honnef.co/go/tools/go/ast/astutil"
 	"honnef.co/go/tools/go/ir"
+	"honnef.co/go/tools/go/loader"
 	"honnef.co/go/tools/go/types/typeutil"
 	"honnef.co/go/tools/quickfix"
 	"honnef.co/go/tools/simple"
@@ -421,11 +422,60 @@ func gen(work string, seed uint64, nrand, nmixed int) genOut {
 	hx.WriteFile(filepath.Join(mod, "only_tests", "only_tests_test.go"), "package only_tests\n\nimport \"testing\"\n\nfunc helper(p *int) *int {\n\tif p == nil {\n\t\treturn nil\n\t}\n\treturn p\n}\n\nfunc TestX(t *testing.T) {\n\tif helper(nil) != nil {\n\t\tt.Fatal(\"x\")\n\t}\n}\n")
 	hx.WriteFile(filepath.Join(mod, "ext_tests", "ext_tests.go"), "// Package ext_tests has an external test package.\npackage ext_tests\n\n// F returns its argument.\nfunc F(p *int) *int { return p }\n")
 	hx.WriteFile(filepath.Join(mod, "ext_tests", "ext_tests_test.go"), "package ext_tests_test\n\nimport (\n\t\"testing\"\n\n\t\"example.com/c03gen/ext_tests\"\n)\n\nfunc TestF(t *testing.T) {\n\tif ext_tests.F(nil) != nil {\n\t\tt.Fatal(\"x\")\n\t}\n}\n")
+	// a package with a source file of loader.MaxFileSize bytes (the loader then falls back to export data and the
+	// runner marks the package skipped), a package importing it, and an unrelated one
+	var big strings.Builder
+	big.WriteString("// Package big has an oversized source file.\npackage big\n\n// N is a constant.\nconst N = 1\n\n// P returns a pointer.\nfunc P() *int { return new(int) }\n\n")
+	pad := "// " + strings.Repeat("padding ", 15) + "\n"
+	for big.Len() < loader.MaxFileSize+len(pad) {
+		big.WriteString(pad)
+	}
+	hx.WriteFile(filepath.Join(mod, "bigfile", "big", "big.go"), big.String())
+	hx.WriteFile(filepath.Join(mod, "bigfile", "use", "use.go"), "// Package use imports the oversized package.\npackage use\n\nimport \"example.com/c03gen/bigfile/big\"\n\n// F uses big.\nfunc F() *int {\n\tif big.N > 0 {\n\t\treturn big.P()\n\t}\n\treturn nil\n}\n")
+	hx.WriteFile(filepath.Join(mod, "bigfile", "top", "top.go"), "// Package top imports the importer of the oversized package.\npackage top\n\nimport \"example.com/c03gen/bigfile/use\"\n\n// G uses use.\nfunc G() bool { return use.F() == nil }\n")
+	hx.WriteFile(filepath.Join(mod, "bigfile", "solo", "solo.go"), "// Package solo is unrelated to the oversized package.\npackage solo\n\n// H returns its argument.\nfunc H(p *int) *int { return p }\n")
+	for _, n := range []string{"bigfile/big", "bigfile/use", "bigfile/top", "bigfile/solo"} {
+		o.Packages = append(o.Packages, pkgRec{Name: n, Dir: filepath.Join(mod, n), Snippets: []string{n}, Targets: []string{"pkg:oversized-file"}, BinaryOnly: true})
+	}
 	for _, n := range []string{"only_tests", "ext_tests"} {
 		o.Packages = append(o.Packages, pkgRec{Name: n, Dir: filepath.Join(mod, n), Snippets: []string{n}, Targets: []string{"pkg:" + n}, BinaryOnly: true})
 	}
 	for _, a := range analyzers {
 		o.Analyzers = append(o.Analyzers, a.Name)
+	}
+	// multi-package groups
+	for _, g := range groups(rnd.Fork(), 10) {
+		prefix := "example.com/c03gen/" + g.Name
+		siblings := map[string]*types.Package{}
+		facts := newFactStore()
+		inproc := true
+		for _, gp := range g.Pkgs {
+			if strings.Contains(strings.ReplaceAll(gp.Src, "\"@/", ""), "import \"") || strings.Contains(gp.Src, "import (") {
+				inproc = false // imports something outside the group
+			}
+		}
+		for _, gp := range g.Pkgs {
+			dir := filepath.Join(mod, g.Name, gp.Name)
+			fn := filepath.Join(dir, gp.Name+".go")
+			hx.WriteFile(fn, fmt.Sprintf("// Package %s is generated by the C03 harness (group %s).\npackage %s\n", gp.Name, g.Name, gp.Name)+strings.ReplaceAll(gp.Src, "\"@/", "\""+prefix+"/"))
+			rec := pkgRec{Name: g.Name + "/" + gp.Name, Dir: dir, Snippets: []string{g.Name + "/" + gp.Name}, Targets: g.Targets,
+				Instr: map[string]int{}, InstrNil: map[string]int{}, Builtins: map[string]bool{}, CmpZero: map[string]int{}, Ast: map[string]int{}}
+			if !inproc {
+				rec.BinaryOnly = true
+				o.Packages = append(o.Packages, rec)
+				continue
+			}
+			u := loadUnitWith(prefix+"/"+gp.Name, []string{fn}, "go1.26", siblings)
+			if u.err != nil {
+				rec.BuildErr = u.err.Error()
+				o.Packages = append(o.Packages, rec)
+				inproc = false
+				continue
+			}
+			siblings[prefix+"/"+gp.Name] = u.pkg
+			runAll(&rec, u, newRunCtxWith(u, facts), analyzers)
+			o.Packages = append(o.Packages, rec)
+		}
 	}
 	for _, p := range plans {
 		dir := filepath.Join(mod, p.name)
@@ -454,33 +504,37 @@ func gen(work string, seed uint64, nrand, nmixed int) genOut {
 			o.Packages = append(o.Packages, rec)
 			continue
 		}
-		ctx := newRunCtx(u)
-		for _, a := range analyzers {
-			_, err := ctx.run(a)
-			rec.Analyzers++
-			if err != nil {
-				if pe, ok := err.(*panicErr); ok {
-					dup := false
-					for _, q := range rec.Panics {
-						if q.Analyzer == pe.analyzer && q.Value == pe.value {
-							dup = true
-						}
-					}
-					if !dup {
-						rec.Panics = append(rec.Panics, panicRec{pe.analyzer, pe.value, pe.stack})
-					}
-				} else {
-					rec.Errors = append(rec.Errors, a.Name+": "+err.Error())
-				}
-			}
-		}
-		rec.Diagnostics = ctx.diags
-		var irres *verifhooks.IR
-		if r, ok := ctx.results[verifhooks.BuildIR].(*verifhooks.IR); ok {
-			irres = r
-		}
-		measure(&rec, u, irres)
+		runAll(&rec, u, newRunCtx(u), analyzers)
 		o.Packages = append(o.Packages, rec)
 	}
 	return o
+}
+
+// runAll runs every analyzer over the unit (each root under its own recover) and fills the record.
+func runAll(rec *pkgRec, u *pkgUnit, ctx *runCtx, analyzers []*analysis.Analyzer) {
+	for _, a := range analyzers {
+		_, err := ctx.run(a)
+		rec.Analyzers++
+		if err != nil {
+			if pe, ok := err.(*panicErr); ok {
+				dup := false
+				for _, q := range rec.Panics {
+					if q.Analyzer == pe.analyzer && q.Value == pe.value {
+						dup = true
+					}
+				}
+				if !dup {
+					rec.Panics = append(rec.Panics, panicRec{pe.analyzer, pe.value, pe.stack})
+				}
+			} else {
+				rec.Errors = append(rec.Errors, a.Name+": "+err.Error())
+			}
+		}
+	}
+	rec.Diagnostics = ctx.diags
+	var irres *verifhooks.IR
+	if r, ok := ctx.results[verifhooks.BuildIR].(*verifhooks.IR); ok {
+		irres = r
+	}
+	measure(rec, u, irres)
 }
